@@ -16,6 +16,7 @@ for d in sorted((V / "seeded").glob(prop + "-*")):
         pass
 common = f"""You work in a scratch git worktree of OpenCyphal/nunavut (a DSDL-to-C/C++/Python/HTML transpiler) at {wt}.
 Do NOT touch /repo and do NOT read anything under /verif except that /verif/.pydeps may be put on PYTHONPATH (it only holds numpy, needed to run generated Python code).
+NEVER use `git stash` (the stash is shared by all worktrees of the repository and other agents work next to you): save `git diff > file`, `git checkout -- .`, `git apply file` instead.
 There is no network.  Python: /venv/bin/python (pydsdl, pytest installed).  gcc, g++, clang are installed.  The machine is shared: wrap long commands in `timeout`, keep output short (pipe through tail).
 Run the repository's test suite with
   cd {wt} && PYTHONPATH={wt}/src /venv/bin/python -m pytest -q -p no:cacheprovider --timeout=900 --continue-on-collection-errors -rf 2>&1 | tail -80
